@@ -13,13 +13,21 @@ def lang_spaces(tier, n_quick=4, n_thorough=5):
              "invariants": ["Emit"]}]
 
 
+def lr_spaces(tier):
+    n = 4 if tier == "quick" else 5
+    nsim = 25 if tier == "quick" else 800
+    return [{"constants": with_(universe(tier), LangN=n)},
+            {"constants": with_(R_WIDE, LangN=n), "simulate": nsim, "nshards": 16, "depth": 12,
+             "invariants": ["Emit"]}]
+
+
 def describe(first, ev, run_ev):
     key = {"vec": first.get("vec"), "input": (run_ev or {}).get("input"), "opts": (run_ev or {}).get("opts"),
            "text": (run_ev or {}).get("text")}
     return key, f"grammar {json.dumps(first.get('vec', {}).get('g'))[:300]}"
 
 
-def ll_check(prop, tier, replay, do_gen, tv_sample, tv_every, rule, focus, evalw=False):
+def ll_check(prop, tier, replay, do_gen, tv_sample, tv_every, rule, focus, evalw=False, lr=False):
     t0 = time.time()
     rep = Reporter(prop, tier)
     vec_path = os.path.join(OUT, f"{prop}_{tier}.vec.ndjson")
@@ -32,9 +40,10 @@ def ll_check(prop, tier, replay, do_gen, tv_sample, tv_every, rule, focus, evalw
         tv_every = 1
     else:
         with open(vec_path, "w") as fall:
-            for si, sp in enumerate(lang_spaces(tier)):
+            for si, sp in enumerate(lr_spaces(tier) if lr else lang_spaces(tier)):
                 part = vec_path + f".{si}"
-                gen = tlc_gen("Gen_Lang", sp["constants"], sp.get("invariants", ["Emit", "LangIsFixpoint"]),
+                gen = tlc_gen("Gen_LR" if lr else "Gen_Lang", sp["constants"],
+                              sp.get("invariants", ["Emit", "MergeOnlyAdds"] if lr else ["Emit", "LangIsFixpoint"]),
                               sp.get("nshards", 16), part, run_prefix=f"{prop}_{tier}_{si}",
                               simulate=sp.get("simulate"), depth=sp.get("depth", 20))
                 if gen["violated"]:
@@ -52,7 +61,7 @@ def ll_check(prop, tier, replay, do_gen, tv_sample, tv_every, rule, focus, evalw
                                   "mode": "exhaustive" if not sp.get("simulate") else f"tlc -simulate num={sp['simulate']} x 16 seeds",
                                   "states": gen["distinct"], "vectors": len(seen)})
     outp = os.path.join(OUT, f"{prop}_{tier}.replay.ndjson")
-    pv(["replay", "llrun", vec_path, outp],
+    pv(["replay", "lrrun" if lr else "llrun", vec_path, outp],
        env={"PV_GEN": "1" if do_gen else "0", "PV_TV_SAMPLE": tv_sample, "PV_TV_EVERY": tv_every, "PV_MAXK": 3,
             "PV_EVAL": "1" if evalw else "0"})
     res = read_ndjson(outp)
@@ -65,8 +74,9 @@ def ll_check(prop, tier, replay, do_gen, tv_sample, tv_every, rule, focus, evalw
         rep.violation(key, f"{m['what']}: expected {json.dumps(m['expected'])[:300]} got {json.dumps(m['actual'])[:300]} on grammar {json.dumps(r['vec']['g'])[:300]}")
     tvres = {"events": 0, "cases": 0, "cases_accepted": 0, "states": 0, "wall": 0}
     if summary["trace_events"] > 0:
-        tvres = tv.validate(prop, "LLParser", outp + ".trace", rep, describe, nchunks=16,
-                            invariants=["TypeOk", "StackTreeAgree"], run_prefix=f"{prop}_{tier}_tv")
+        tvres = tv.validate(prop, "LRParser" if lr else "LLParser", outp + ".trace", rep, describe, nchunks=16,
+                            invariants=["TypeOk", "StackYield"] if lr else ["TypeOk", "StackTreeAgree"],
+                            run_prefix=f"{prop}_{tier}_tv")
     elif tv_sample:
         raise ToolError("no trace events recorded (vacuous TV leg)")
     samples = []
@@ -77,7 +87,7 @@ def ll_check(prop, tier, replay, do_gen, tv_sample, tv_every, rule, focus, evalw
     rc = rep.finish()
     cov = {"states": max(tot["distinct"] + tvres["states"], 1), "transitions": max(tot["generated"] + tvres["states"], 1),
            "traces_validated_against_impl": tvres["cases_accepted"], "samples": samples,
-           "evaluations": summary["evaluations"], "distinct_nontrivial": summary["tags"].get("accepted", 0),
+           "evaluations": summary["evaluations"], "distinct_nontrivial": summary["tags"].get("accepted", 0) + summary["tags"].get("accepted_clean", 0) + summary["tags"].get("resolved_conflicts", 0),
            "rule": rule, "tags": summary["tags"], "spaces": space_cov, "focus": focus,
            "tv": {k: tvres[k] for k in ("events", "cases", "cases_accepted", "states")},
            "exhaustive": False, "known_findings_seen": rep.known, "tlc_wall_s": round(tot["wall"] + tvres["wall"], 1)}
@@ -116,4 +126,24 @@ def c08(prop, tier, replay):
                     "eval() exactness on all windows (TV) + LaSet guard on every expansion of the recorded runs", evalw=True)
 
 
-REGISTRY = {"C01": c01, "C02": c02, "C20": c20, "C08": c08}
+RULE_LR = ("grammars: every well-formed grammar of the exhaustive universe (left-, right- and start-recursive ones included) plus guided "
+           "random walks; TLC emits the bounded language and the LALR(1) verdict of a canonical-LR(1)-merged-by-core construction (LR1.tla). "
+           "Each grammar goes through parol's LALR(1) pipeline (augmentation, lalry table, source generation) under catch_unwind and the "
+           "generated tables are run by the real LRParser. GEN: a panic is a violation; a table without any reported conflict for a grammar "
+           "that is not LALR(1) is a violation (C04); for every string up to length n: success only on sentences (always), and for tables "
+           "without resolved conflicts failure only on non-sentences. TV: sampled inputs x 3 texts x 5 option sets validated by LRParser.tla "
+           "(reductions pop exactly a right-hand side from the symbol stack; final tree = derivation tree + skipped leaves, contiguous; "
+           "comments once in order). non-trivial = table produced")
+
+
+def c03(prop, tier, replay):
+    return ll_check(prop, tier, replay, True, 2, 6 if tier == "quick" else 2, RULE_LR,
+                    "clean tables: verdict = membership (GEN), reductions = reverse rightmost derivation, tree rooted at start covering all tokens (TV)", lr=True)
+
+
+def c04(prop, tier, replay):
+    return ll_check(prop, tier, replay, True, 1, 12 if tier == "quick" else 4, RULE_LR,
+                    "not LALR(1) => rejected or conflict reported; resolved tables accept only sentences", lr=True)
+
+
+REGISTRY = {"C01": c01, "C02": c02, "C20": c20, "C08": c08, "C03": c03, "C04": c04}
